@@ -184,6 +184,8 @@ def check_base(sp, opts, acc):
 def _shard(shard):
     if shard[0] == "files":
         return files_shard(shard)
+    if shard[0] == "edge_pairs":
+        return edge_pairs_shard(shard)
     t = shard[1]
     acc = core.Acc()
     for sp in bases(t, _shard.tier):
@@ -294,13 +296,135 @@ def files_shard(_):
         else:
             acc.outcomes[f"files:{'equal' if want else 'unequal'}"] += 1
             acc.n["traces"] += 1
-    acc.sample({"file pairs": [c[0] for c in cases]}, 1)
+    # objects that were opened earlier and are compared outside any context, after one of the files was changed
+    # through another object: == has to look at the files as they are now
+    stale = [("file A gains the missing block through another object -> equal", [ev], [ev, em], ("add", em), True),
+             ("file A loses a block through another object -> unequal", [ev, em], [ev, em], ("remove", em), False),
+             ("file A's block is replaced through another object -> unequal", [ev, em], [ev, em], ("replace", em2), False)]
+    for label, A, B, change, want in stale:
+        acc.n["states"] += 1
+        acc.n["evaluations"] += 1
+        acc.n["nontrivial"] += 1
+        pa, pb = mk("sa.tdf", 3, A, 1, "ref"), mk("sb.tdf", 3, B, 1, "ref")
+        wit = {"files": label}
+        try:
+            fa, fb = n.tdf.Tdf(pa), n.tdf.Tdf(pb)
+            for f in (fa, fb):       # both objects have been used before (whatever they remember)
+                with f:
+                    len(f)
+                    f.blocks
+            first = (fa == fb)
+            with n.tdf.Tdf(pa).allow_write() as other:
+                if change[0] == "add":
+                    other.add_block(specs.build(change[1]), "c")
+                elif change[0] == "remove":
+                    other.remove_block(n.block.BlockType(change[1]["type"]))
+                else:
+                    other.replace_block(specs.build(change[1]), "c")
+            r1, r2 = fa == fb, fb == fa
+            acc.n["transitions"] += 4
+        except Exception as e:  # noqa: BLE001
+            acc.violation("eq-raises", f"{PROP}:files:eq-raises:stale:{type(e).__name__}", wit, f"{label}: {type(e).__name__}: {e}")
+            continue
+        if bool(first) == want or bool(r1) != want or bool(r2) != want:
+            clause = "equal-content-unequal" if want else "different-content-equal"
+            acc.violation(clause, f"{PROP}:files:{clause}:stale-object", wit,
+                          f"{label}: before the change == gave {first} (expected {not want}), afterwards {r1}/{r2} (expected {want})")
+        else:
+            acc.outcomes[f"files:stale-object:{'equal' if want else 'unequal'}"] += 1
+            acc.n["traces"] += 1
+    acc.sample({"file pairs": [c[0] for c in cases] + [c[0] for c in stale]}, 1)
+    return acc
+
+
+def edge_pairs_shard(_):
+    """Pairs the single-site mutations do not produce:
+    * blocks decoded from other software's bytes whose labels fill the whole field and differ only in the last
+      character (unequal), and the same bytes decoded twice (equal);
+    * blocks with the same items in the same order but another number of frames (unequal - not an exception)."""
+    acc = core.Acc()
+    T = True
+    for t in (R.T_DATA3D, R.T_FORCE3D, R.T_EMG, R.T_EVENTS, R.T_PLATCAL, R.T_OPT):
+        width = 32 if t == R.T_OPT else 256
+        for where in (0, 1):
+            def make(last):
+                labs = ["k0", "k1"]
+                labs[where] = "w" * (width - 1) + last
+                if t in gen.RLE_TYPES:
+                    return gen.rle_block(t, 2, [(T, T), (T, False)], labels=labs, chans=[5, 1])
+                if t == R.T_EVENTS:
+                    return gen.events([gen.mk_event(labs[0], 1, 2, 0), gen.mk_event(labs[1], 0, 1, 1)])
+                if t == R.T_PLATCAL:
+                    return gen.platcal([(3, gen.mk_platinfo(labs[0], 0)), (1, gen.mk_platinfo(labs[1], 1))])
+                return gen.optical([gen.mk_chan(0, name=labs[0]), gen.mk_chan(1, name=labs[1])])
+            spa, spb = make("a"), make("b")
+            acc.n["states"] += 1
+            acc.n["evaluations"] += 1
+            acc.n["nontrivial"] += 1
+            wit = {"edge_pair": ["full-width", t, where]}
+            try:
+                a1 = specs.lib_decode(t, spa["format"], R.encode_block(spa, full_ok=True))[0]
+                a2 = specs.lib_decode(t, spa["format"], R.encode_block(spa, full_ok=True))[0]
+                b1 = specs.lib_decode(t, spb["format"], R.encode_block(spb, full_ok=True))[0]
+                acc.n["transitions"] += 3
+                same = _eq(a1, a2, "same foreign bytes decoded twice", spa, "full-width") and _eq(a2, a1, "same foreign bytes decoded twice", spa, "full-width")
+                diff = _eq(a1, b1, "full-width labels differing in the last character", spa, "full-width") or \
+                    _eq(b1, a1, "full-width labels differing in the last character", spa, "full-width")
+            except core.Violation as v:
+                if v.clause == "eq-raises":
+                    # kinds whose == compares encodings cannot compare a block that cannot be written (a full-width
+                    # label has no room for the terminator): no verdict, hence no wrong verdict - like the
+                    # unencodable twins of check_base
+                    acc.outcomes[f"{R.NAMES[t]}:full-width:not-comparable"] += 1
+                    acc.n["traces"] += 1
+                    continue
+                acc.violation(v.clause, v.sig, wit, v.detail)
+                continue
+            except Exception as e:  # noqa: BLE001
+                acc.violation("conformant-bytes-refused", f"{PROP}:{R.NAMES[t]}:foreign-decode:{type(e).__name__}", wit, f"{type(e).__name__}: {e}")
+                continue
+            if not same:
+                acc.violation("equal-content-unequal", f"{PROP}:{R.NAMES[t]}:equal-content-unequal:full-width", wit,
+                              f"{R.NAMES[t]}: the same bytes (item {where} has a label filling its {width}-byte field) decoded twice compare unequal")
+            elif diff:
+                acc.violation("different-content-equal", f"{PROP}:{R.NAMES[t]}:different-content-equal:full-width", wit,
+                              f"{R.NAMES[t]}: labels of item {where} fill the {width}-byte field and differ in the last character, blocks compare equal")
+            else:
+                acc.outcomes[f"{R.NAMES[t]}:full-width:told-apart"] += 1
+                acc.n["traces"] += 1
+    for t in gen.RLE_TYPES:
+        for n1, n2 in ((3, 4), (4, 3), (1, 2), (2, 1)):
+            for items in (1, 2):
+                spa = gen.rle_block(t, n1, [tuple([T] * n1)] * items, chans=[5, 1])
+                spb = gen.rle_block(t, n2, [tuple([T] * n2)] * items, chans=[5, 1])
+                acc.n["states"] += 1
+                acc.n["evaluations"] += 1
+                acc.n["nontrivial"] += 1
+                wit = {"edge_pair": ["frames", t, n1, n2, items]}
+                try:
+                    forms_a, forms_b = _forms(spa, {}), _forms(spb, {})
+                    acc.n["transitions"] += 6
+                    bad = None
+                    for fa in (forms_a[0], forms_a[2]):
+                        for fb in (forms_b[0], forms_b[2]):
+                            if _eq(fa, fb, f"{n1} vs {n2} frames", spa, "frame-count") or _eq(fb, fa, f"{n2} vs {n1} frames", spa, "frame-count"):
+                                bad = "compare equal"
+                except core.Violation as v:
+                    acc.violation(v.clause, v.sig, wit, v.detail)
+                    continue
+                if bad:
+                    acc.violation("different-content-equal", f"{PROP}:{R.NAMES[t]}:different-content-equal:frame-count", wit,
+                                  f"{R.NAMES[t]}: {items} item(s), {n1} vs {n2} frames: {bad}")
+                else:
+                    acc.outcomes[f"{R.NAMES[t]}:frame-count:told-apart"] += 1
+                    acc.n["traces"] += 1
+    acc.sample({"edge pairs": "full-width foreign labels differing in the last character; same items with another frame count"}, 1)
     return acc
 
 
 def run(tier):
     _shard.tier = tier
-    acc = core.pmap(__name__, "_shard", [("files",)] + [("blocks", t) for t in R.WRITABLE])
+    acc = core.pmap(__name__, "_shard", [("files",), ("edge_pairs",)] + [("blocks", t) for t in R.WRITABLE])
     acc.merge(core.pmap("mc.editwalk", "run_shard", editwalk.shards(PROP, tier)))
     return acc
 
@@ -308,8 +432,8 @@ def run(tier):
 def replay(w):
     if w.get("editwalk"):
         return editwalk.replay(w)
-    if "files" in w:
-        acc = files_shard(None)
+    if "files" in w or "edge_pair" in w:
+        acc = files_shard(None) if "files" in w else edge_pairs_shard(None)
         for v in acc.violations:
             if v["witness"] == w:
                 return core.Violation(v["clause"], v["sig"], w, v["detail"])
